@@ -38,12 +38,13 @@ Definition dump_eqb (a b : dump) : bool :=
 
 Definition is_dump_op (o : op) : bool := match o with OCommit | ORollback | ONewSession => true | _ => false end.
 
-(* verdict code: 0 = all compared results and dumps agree; 1 = stopped at a dirty step (agreeing so far); 2 = stopped where the
+(* verdict code: 0 = all compared results and dumps agree; 100 + site = stopped at a dirty step (agreeing so far; site numbers in Model/Session.v); 2 = stopped where the
    model declines; 3 = result mismatch at the index; 4 = dump mismatch at the index.  Second component: op index. *)
 Fixpoint check_run (sch : schema) (s : sess) (ops : list op) (exp : list res) (dumps : list dump) (i : nat) : nat * nat :=
   match ops, exp with
   | [], _ =>
     let '(s1, _) := newsession_op sch s in
+    if s_declined s1 then (2, i)%nat else
     match dumps with
     | d :: _ => if dump_eqb (dump_of sch (s_committed s1)) d then (0, i)%nat else (4, i)%nat
     | [] => (4, i)%nat
@@ -52,13 +53,14 @@ Fixpoint check_run (sch : schema) (s : sess) (ops : list op) (exp : list res) (d
     let '(s1, r1) := step sch s o in
     if s_declined s1 then (2, i)%nat
     else if negb (res_eqb r1 r) then (3, i)%nat
-    else if s_dirty s1 then (1, i)%nat
-    else if is_dump_op o then
+    else match s_dirty s1 with S site => ((100 + site)%nat, i) | O =>
+    if is_dump_op o then
       match dumps with
       | d :: dumps' => if dump_eqb (dump_of sch (s_committed s1)) d then check_run sch s1 ops' exp' dumps' (S i) else (4, i)%nat
       | [] => (4, i)%nat
       end
     else check_run sch s1 ops' exp' dumps (S i)
+    end
   | _ :: _, [] => (3, i)%nat
   end.
 
